@@ -1252,7 +1252,7 @@ def run(ctx):
         "parameter accepted in 1-D is accepted in 2-D": "proved for ALL divs (C12_accept_1d_2d); every divs >= 4 accepted by both forms (C12_accept_from4)",
         "Gauss-Kronrod, Clenshaw-Curtis accuracy": "validated_only (external adaptive crates)"}
     return finish(ctx, assumptions=[
-        "binary64 rounding of the kernels is measured against the exact Q model (1e-12 relative to the scale |b-a| sum|c_k| max(|a|,|b|)^k), not proved",
+        "binary64 rounding: proved for the sequential evaluation of `simpson` in the standard model without overflow/underflow (C12_simpson_binary64, (1+u)^(n+6)-1 relative to sum w_i |f(x_i)| dx/3); node displacement, the rayon reduction order (n >= 128) and all other kernels are measured against the exact Q model (1e-12 relative to the integrand's scale), not proved",
         "gauss-quad's integrate (affine transfer) and the iterator/rayon machinery behind Steps are hand-modelled and checked by rule extraction",
         "quad-rs (Gauss-Kronrod) and quadrature (Clenshaw-Curtis) are external: validated by sampling only",
         "the extracted rule is the linear functional the code applies to indicator integrands; linearity of the fixed-rule code paths is what the translated model proves"])
